@@ -8,6 +8,11 @@ CFG = dict(
     stages=[
         seq("asan", "asan", _SRC, 40000, 16000000),
         seq("rel", "rel", _SRC, 10000, 4000000, mode="relprog"),  # mode only selects another PRNG stream
+        seq("asan_latin1", "asan", _SRC, 10000, 1000000, mode="locprog", env={"VERIF_LOCALE": "latin1"}),  # 8-bit libc locale
+        # reentrancy: 2..8 threads run PRNG-derived workloads on this module at once; each thread's digest of everything it
+        # observed must equal the digest of the same workload run alone (harness/mt_pure.c); p0 = rounds per thread
+        seq("mt_tsan", "tsan", "mt_pure.c", 32, 3200, mode="xml", params={0: 150}, wrap=True, leak=False),
+        seq("mt_rel", "rel", "mt_pure.c", 32, 3200, mode="xml", params={0: 1500}, leak=False),
     ],
     rule=("case = (element tree, per-node action plan, options.max_depth). The tree (1-60 elements; chain-biased, bushy or "
           "wide) takes its names from a small pool {a, aa, ab, aab, abc, a1, a-b, a.b, a:b, b, b1, ba, Key, KeyMarker, ...}; a "
